@@ -157,6 +157,9 @@ pub fn all(data: &Value, args: &Vec<&Value>) -> Result<Value, Error> {
     // we will then pass on
 
     let _new_item: Value;
+    // Only the elements of an array written in the rule are expressions;
+    // the elements of a computed collection are data and stay as they are.
+    let items_are_expressions = !matches!(first_arg, Value::Object(_));
     let potentially_evaled_first_arg = match first_arg {
         Value::Object(_) => {
             let parsed = Parsed::from_value(first_arg)?;
@@ -211,6 +214,9 @@ pub fn all(data: &Value, args: &Vec<&Value>) -> Result<Value, Error> {
             if !res {
                 return Ok(false);
             };
+            if !items_are_expressions {
+                return Ok(logic::truthy_from_evaluated(&predicate.evaluate(i)?));
+            }
             let _parsed_item = Parsed::from_value(i)?;
             // Evaluate each item as we go, in case we can short-circuit
             let evaluated_item = _parsed_item.evaluate(data)?;
@@ -239,6 +245,9 @@ pub fn some(data: &Value, args: &Vec<&Value>) -> Result<Value, Error> {
     // we will then pass on
 
     let _new_item: Value;
+    // Only the elements of an array written in the rule are expressions;
+    // the elements of a computed collection are data and stay as they are.
+    let items_are_expressions = !matches!(first_arg, Value::Object(_));
     let potentially_evaled_first_arg = match first_arg {
         Value::Object(_) => {
             let parsed = Parsed::from_value(first_arg)?;
@@ -293,6 +302,9 @@ pub fn some(data: &Value, args: &Vec<&Value>) -> Result<Value, Error> {
             if res {
                 return Ok(true);
             };
+            if !items_are_expressions {
+                return Ok(logic::truthy_from_evaluated(&predicate.evaluate(i)?));
+            }
             let _parsed_item = Parsed::from_value(i)?;
             // Evaluate each item as we go, in case we can short-circuit
             let evaluated_item = _parsed_item.evaluate(data)?;
